@@ -18,6 +18,8 @@
                                 range, every buffered fragment is plausible, at most C bytes of
                                 fragments are buffered per proxy, writers have sent all their changes
      bytes_ok bytes             every element is an octet (0..255)
+     datagram_alloc st bytes    bytes copied into the reassembly buffers (the one handler allocation whose
+                                size depends on wire values)
      datagram_steps st bytes    iterations of the one loop whose bound is computed from wire values
                                 (reassembly loop x buffer scan); every other handler loop runs over a
                                 decoded set (<= 256 members) or a container of the state
@@ -69,6 +71,22 @@ Theorem C06_reassembly_quadratic :
   bytes_okb w_honest_frags = true /\ datagram_steps demo_state w_honest_frags = 41 * 40.
 Proof. exact reassembly_quadratic. Qed.
 
+(* allocation of the fragment reassembly path (the handlers' only allocation sized from wire
+   values): the buffers hold bytes that were RECEIVED — per submessage and reader at most the bytes
+   already buffered + 26 per datagram byte — whatever data_size / fragment_size / counts announce;
+   e.g. a consistent forged fragment announcing 65 535 000 bytes costs the 1000 bytes it carries.
+   (Vec growth can request up to twice that; the run-time oracle bounds every single request of the
+   real code by 64 x datagram length + 64 KiB.) *)
+Theorem C06_reassembly_alloc_bounded : forall C st bytes, 0 <= C ->
+  InvC C st -> C + 26 * len bytes <= FRAG_CAP -> bytes_ok bytes ->
+  0 <= datagram_alloc st bytes <= alloc_bound (len (subs_of bytes)) (len (ps_readers st)) (C + 26 * len bytes).
+Proof. exact datagram_alloc_bounded. Qed.
+
+Theorem C06_forged_fragment_alloc :
+  bytes_okb w_forged_frag = true /\ len w_forged_frag = 1056 /\
+  datagram_alloc demo_state w_forged_frag = 1000 /\ is_ok (handle_datagram demo_state w_forged_frag) = true.
+Proof. exact forged_frag_alloc. Qed.
+
 (* the decoder hands the handlers values in their machine ranges, for every byte string *)
 Theorem C06_decoded_in_range : forall bytes, bytes_ok bytes -> Forall sub_range (subs_of bytes).
 Proof. exact decoded_in_range. Qed.
@@ -100,6 +118,8 @@ Print Assumptions C06_history_total.
 Print Assumptions C06_other_peers_untouched.
 Print Assumptions C06_datagram_steps_bounded_partial.
 Print Assumptions C06_reassembly_quadratic.
+Print Assumptions C06_reassembly_alloc_bounded.
+Print Assumptions C06_forged_fragment_alloc.
 Print Assumptions C06_decoded_in_range.
 Print Assumptions C06_spdp_payload_decoder_total.
 Print Assumptions C06_former_witnesses_handled.
